@@ -560,6 +560,49 @@ pub fn many_batches_scenario_strategy(cfgs: BoxedStrategy<Cfg>) -> BoxedStrategy
         .boxed()
 }
 
+/// Structured generator for registry operations: bonds over several validators, uneven layouts through slashing,
+/// a removal (stake redelegated to the others), a second removal that is blocked because a redelegation into that
+/// validator is still in flight, optional re-addition, time passing, and the permissionless `Redelegations` that
+/// finishes the move later; rewards pending and batches in flight around the removals.
+pub fn registry_scenario_strategy(p: &Profile, cfgs: BoxedStrategy<Cfg>) -> BoxedStrategy<History> {
+    (
+        cfgs,
+        proptest::collection::vec(bond_strategy(p), 2..6),
+        proptest::collection::vec((0u8..5, 1u16..400), 0..3),
+        proptest::collection::vec((0u8..5, prop_oneof![Just(0u8), Just(1u8)], amt_strategy()), 0..3),
+        (0u8..5, 0u8..5, any::<bool>(), any::<bool>(), any::<bool>()),
+        proptest::collection::vec(op_strategy(p), 0..6),
+        proptest::collection::vec(bond_strategy(p), 0..3),
+    )
+        .prop_map(|(cfg, bonds, slashes, accruals, (v1, v2, unbond_first, readd, wait_long), others, later_bonds)| {
+            let mut ops: Vec<Op> = bonds;
+            for (v, permille) in slashes {
+                ops.push(Op::Slash { v, permille, unbonding: false });
+            }
+            ops.push(Op::Bond { u: 0, st: true, amt: Amt { class: 2, mant: 7 } });
+            if unbond_first {
+                ops.push(Op::Unbond { u: 0, st: true, frac: 9000 });
+            }
+            for (v, coin, amt) in accruals {
+                ops.push(Op::Accrue { v, coin, amt });
+            }
+            ops.push(Op::RemoveVal { v: v1 });
+            ops.extend(others);
+            // second removal: often hits a validator that just received a redelegation (blocked)
+            ops.push(Op::RemoveVal { v: v2 });
+            if readd {
+                ops.push(Op::AddVal { v: v1 });
+            }
+            ops.extend(later_bonds);
+            ops.push(Op::Advance { clock: if wait_long { Clock::Long } else { Clock::Secs(5) } });
+            ops.push(Op::Redelegations { v: v2, by: 1 });
+            ops.push(Op::Redelegations { v: v1, by: 2 });
+            ops.push(Op::Bond { u: 1, st: false, amt: Amt { class: 2, mant: 3 } });
+            History { cfg, ops }
+        })
+        .boxed()
+}
+
 /// Structured generator: bonds of both tokens, then reward rounds (rewards of several coins accrue on several
 /// validators, then UpdateGlobalIndex), interleaved with a few generated operations of the given profile.
 pub fn reward_scenario_strategy(p: &Profile, cfgs: BoxedStrategy<Cfg>) -> BoxedStrategy<History> {
